@@ -339,6 +339,12 @@ class Lowerer:
     def e_CXXStaticCastExpr(self, n): return self.cast(n)
     def e_CXXReinterpretCastExpr(self, n): return self.cast(n)
     def e_CXXConstCastExpr(self, n): return self.e(n['inner'][0])
+    def e_CXXDynamicCastExpr(self, n):
+        # dynamic_cast<T*>(p): model function named after source and target class (returns p or null: sidecar decides)
+        t = ct(n); st = ct(n['inner'][0])
+        cname = 'dynamic_cast_%s__%s' % (t.name + 'P' * t.suf.count('*'), st.name + 'P' * st.suf.count('*'))
+        self.note_extern(cname, n); self.rule('dynamic_cast -> model function')
+        return '%s(%s)' % (cname, self.e(n['inner'][0]))
     def e_ImplicitCastExpr(self, n): return self.cast(n)
 
     def cast(self, n):
@@ -354,6 +360,15 @@ class Lowerer:
                 x = '(&(%s)->_base)' % x if st.is_ptr else '(%s)._base' % x
             self.rule('derived-to-base')
             return x
+        if ck == 'IntegralCast' and (n.get('kind') in ('CStyleCastExpr', 'CXXStaticCastExpr', 'CXXFunctionalCastExpr') or n.get('isPartOfExplicitCast')):
+            # an EXPLICIT cast to a narrower UNSIGNED type is a deliberate modular truncation (e.g. gzip ISIZE = size mod 2^32):
+            # written as a mask so that --conversion-check keeps watching the implicit conversions only
+            t = ct(n); st = ct(sub)
+            masks = {'unsigned int': '0xffffffffull', 'unsigned short': '0xffffull', 'unsigned char': '0xffull'}
+            wide = {'long long', 'unsigned long long', 'long', 'unsigned long', 'int', 'unsigned int', 'short', 'unsigned short'}
+            if t.name in masks and st.name in wide and st.name != t.name:
+                self.rule('explicit cast to narrower unsigned -> modular truncation')
+                return '((%s)(((unsigned long long)(%s)) & %s))' % (t.name, self.e(sub), masks[t.name])
         if ck in ('IntegralCast', 'IntegralToFloating', 'FloatingToIntegral', 'FloatingCast'):
             t = ct(n)
             if self.is_enum(t) and not t.is_builtin:
@@ -429,6 +444,14 @@ class Lowerer:
             return self.enum_const(rd, n)
         if k in ('VarDecl', 'ParmVarDecl', 'BindingDecl'):
             name = self.var_name(rd)
+            gv = self.ix.vars.get(rd.get('name'))
+            if k == 'VarDecl' and gv is not None and gv.get('id') == rd.get('id') and rd['id'] not in self.scope_ids and gv.get('constexpr', False) | ('const ' in (gv.get('type', {}).get('qualType', '') + ' ')):
+                # namespace-scope constant with a literal initialiser: emitted once as a static const of the unit
+                init = [c for c in gv.get('inner', []) if isinstance(c, dict) and c.get('kind') and not c['kind'].endswith('Comment')]
+                t = CType(gv['type']['qualType'], gv['type'].get('desugaredQualType'))
+                if init and t.is_builtin:
+                    decl = 'static const %s %s = %s;' % (t.name, name, self.e(init[0]))
+                    if decl not in self.static_locals: self.static_locals.append(decl); self.rule('namespace-scope constant emitted')
             if rd['id'] in self.refs: return '(*%s)' % name
             return name
         if k in ('FunctionDecl', 'CXXMethodDecl'):
@@ -442,6 +465,9 @@ class Lowerer:
         if nm in C_KEYWORDS: return nm + '_'
         return nm
     def enum_const(self, rd, n):
+        if rd['id'] in self.ix.enum_consts and not ct(n).name in ENUM_MODEL_TYPES:
+            self.rule('repo enum constant -> its value')
+            return '%d /* %s */' % (self.ix.enum_consts[rd['id']], rd['name'])
         t = ct(n)
         return 'E_%s_%s' % (t.name, rd['name'])
 
@@ -883,7 +909,7 @@ class Lowerer:
             self.rule('new T(args) of a repo class -> malloc + constructor')
             rq = self.rec_for(obj)
             if rq: self.need_struct(rq)
-            return '({ %s *_n = (%s *)malloc(sizeof(%s)); %s; _n; })' % (obj.name, obj.name, obj.name, self.ctor_call(obj, '_n', ctor[0]))
+            return '({ %s *_n = (%s *)malloc(sizeof(%s)); __CPROVER_assume(_n != 0); /* operator new never returns null (allocation failure is outside the model) */ %s; _n; })' % (obj.name, obj.name, obj.name, self.ctor_call(obj, '_n', ctor[0]))
         args = self.drop_defaults(ctor[0].get('inner', [])) if ctor else []
         suffix = self.argsuffix(args)
         cname = '%s_new%s' % (obj.name, ('__' + suffix) if suffix else '')
@@ -1448,7 +1474,8 @@ OBJECT_TYPES = {'QFile', 'QFileDevice', 'QIODevice', 'QSaveFile', 'QObject', 'QT
                 'QTextStream', 'QSettings', 'QEvent', 'QNetworkAccessManager', 'QNetworkReply'}
 PURE_EXTERN_METHODS = {'toStdString', 'errorString', 'fileName', 'toUtf8', 'toLocal8Bit', 'size', 'constData', 'data', 'c_str', 'toString'}
 ITER_METHODS = {'begin', 'end', 'cbegin', 'cend', 'constBegin', 'constEnd', 'rbegin', 'rend', 'crbegin', 'crend'}
-RAII_TYPES = {'QMutexLocker', 'QMutexLocker_QMutex', 'QMutexLocker_QRecursiveMutex'}
+RAII_TYPES = {'QMutexLocker', 'QMutexLocker_QMutex', 'QMutexLocker_QRecursiveMutex', 'std_unique_lock_QRecursiveMutex', 'std_unique_lock_QMutex',
+              'std_lock_guard_QRecursiveMutex', 'std_lock_guard_QMutex', 'std_scoped_lock_QRecursiveMutex', 'std_scoped_lock_QMutex', 'QReadLocker', 'QWriteLocker'}
 C_KEYWORDS = {'stdout', 'stderr', 'stdin', 'register', 'restrict', 'auto', 'default', 'signed', 'unsigned', 'inline'}
 
 _src_cache = {}
